@@ -44,6 +44,7 @@ var strTemplates = []strTemplate{
 	{"len-conv", 0, []Param{{"b", "byte"}, {"r", "rune"}}, []string{"int"}, "\treturn len(string(b))*10 + len(string(r))\n", false},
 	{"raw-and-interpreted-same-body", 1, nil, []string{"int"}, "\ta := \"x\\ty\\n\"\n\tb := `x\\ty\\n`\n\tc := \"q\\\\z\"\n\td := `q\\\\z`\n\tfmt.Println(a == b, len(a), len(b), a < b, c == d, len(c), len(d), s+a == s+b)\n\treturn len(a)*1000 + len(b)*100 + len(c)*10 + len(d)\n", true},
 	{"raw-then-interpreted", 0, nil, []string{"string"}, "\tb := `u\\tv`\n\ta := \"u\\tv\"\n\treturn a + \"|\" + b\n", false},
+	{"len-of-literal", 1, nil, []string{"int"}, "\tfmt.Println(len(\"a\\nb\"), len(\"\\xff\\x00\"), len(\"\\u00e9\"), len(\"\\\\\"), len(\"q\\\"q\"), len(`a\\nb`), len(\"é\"), len(\"\"), len(\"\\t\" + s))\n\treturn len(\"x\\ty\") + len(s)\n", true},
 	{"eq", 2, nil, []string{"bool"}, "\treturn s == t\n", false},
 	{"neq", 2, nil, []string{"bool"}, "\treturn s != t\n", false},
 	{"lt", 2, nil, []string{"bool"}, "\treturn s < t\n", false},
